@@ -102,7 +102,7 @@ def gen(rng, n, tier):
         if rng.random() < 0.4:                                          # vertices with altitudes: along-edge distances stay planimetric (abs_curv is 2-D)
             for e in edges:
                 e['z'] = [float(rng.randint(0, 60)) for _ in e['geom']]
-        out.append({'edges': edges, 'tracks': tracks, 'radius': radius, 'noise': rng.choice([1.0, 5.0, 50.0]),
+        out.append({'edges': edges, 'tracks': tracks, 'radius': radius, 'tmode': rng.choice(['inc', 'inc', 'equal', 'dec', 'shuffle']), 'noise': rng.choice([1.0, 5.0, 50.0]),
                     'res': rng.choice([None, [3, 3], [5, 1], [2.5, 7], [1.5, 1.5]]), 'margin': rng.choice([0.05, 0.15, 0.5])})
     return out
 
@@ -117,7 +117,10 @@ def build(case):
         net.addEdge(ed, Node(e['s'], tr.getFirstObs().position), Node(e['t'], tr.getLastObs().position))
     net.spatial_index = SpatialIndex(net, resolution=tuple(case['res']) if case['res'] else None, margin=case['margin'], verbose=False)
     net.prepare(verbose=False)
-    tracks = [Track([Obs(ENUCoords(x, y, 0), ObsTime.readUnixTime(1000 + 7 * i)) for i, (x, y) in enumerate(t)]) for t in case['tracks']]
+    tm = case.get('tmode', 'inc')                 # timestamps: increasing, all equal, decreasing (a reversed track), or out of order
+    def stamp(i, n):
+        return 1000 + {'inc': 7 * i, 'equal': 0, 'dec': 7 * (n - i), 'shuffle': (7 * i * 5) % 11}[tm]
+    tracks = [Track([Obs(ENUCoords(x, y, 0), ObsTime.readUnixTime(stamp(i, len(t)))) for i, (x, y) in enumerate(t)]) for t in case['tracks']]
     return net, tracks
 
 
